@@ -6,12 +6,14 @@ import (
 	"encoding/base64"
 	"encoding/json"
 	"fmt"
+	"io"
 	"math/rand/v2"
 	"os"
 	"os/exec"
 	"path/filepath"
 	"strconv"
 	"strings"
+	"testing/iotest"
 	"time"
 
 	"github.com/transparency-dev/witness/internal/feeder/bastion"
@@ -30,6 +32,28 @@ func write(old string, hashes [][]byte, cp []byte) []byte {
 	b.WriteString("\n")
 	b.Write(cp)
 	return b.Bytes()
+}
+
+// chunkReader delivers its bytes in PRNG-sized pieces (network fragmentation).
+type chunkReader struct {
+	b []byte
+	r *rand.Rand
+}
+
+func (c *chunkReader) Read(p []byte) (int, error) {
+	if len(c.b) == 0 {
+		return 0, io.EOF
+	}
+	n := 1 + c.r.IntN(200)
+	if n > len(p) {
+		n = len(p)
+	}
+	if n > len(c.b) {
+		n = len(c.b)
+	}
+	copy(p, c.b[:n])
+	c.b = c.b[n:]
+	return n, nil
 }
 
 func eqHashes(a, b [][]byte) bool {
@@ -96,9 +120,10 @@ func main() {
 	wit.Quiet()
 	run := ev.Start("C11", "exploration")
 	defer run.Finish()
-	run.Rule("round trip: bodies written by an independent writer (old sizes 0,1,2^k+-1,2^64-1,uniform; 0-64 hashes of 1-64 bytes; checkpoint bytes incl. blank lines, no trailing newline, non-UTF-8, CR) must parse to exactly (size, hashes, bytes); refusal: bodies of the three unambiguous malformed classes must be refused; proof text format: Marshal then Unmarshal of every generated list incl. the empty one; the repository's own writer (cmd/feedbastion bastionClient.Update) is captured and parsed; differential sweep: mutated and random bodies against a reference reader, judged only where the reference verdict is definite. evaluations = parser calls judged; nontrivial = distinct (part, class, hash count, cp shape / malformed form)")
+	run.Rule("round trip: bodies written by an independent writer (old sizes 0,1,2^k+-1,2^64-1,uniform; 0-64 hashes of 1-64 bytes; checkpoint bytes incl. blank lines, no trailing newline, non-UTF-8, CR; delivered whole, a byte at a time, in halves and in random chunks; incl. headers longer than one 4 KiB buffer) must parse to exactly (size, hashes, bytes); refusal: bodies of the three unambiguous malformed classes must be refused; proof text format: Marshal then Unmarshal of every generated list incl. the empty one; the repository's own writer (cmd/feedbastion bastionClient.Update) is captured and parsed; differential sweep: mutated and random bodies against a reference reader, judged only where the reference verdict is definite. evaluations = parser calls judged; nontrivial = distinct (part, class, hash count, cp shape / malformed form)")
 	run.Assume("variants the format texts leave open (leading zeros, several spaces/tab after 'old', CRLF, lines over 4 KiB) are judged only by: if accepted, the value is the decimal value of the digits")
 	run.Floor("roundtrip", 20000)
+	run.Floor("roundtrip_header_over_4KiB", 500)
 	run.Floor("refusal_a", 40)
 	run.Floor("refusal_b", 40)
 	run.Floor("refusal_c", 40)
@@ -117,12 +142,34 @@ func main() {
 			for j := 0; j < nh; j++ {
 				hs = append(hs, randBytes(r, 1+r.IntN(64)))
 			}
+			if i%9 == 4 {
+				// the corner of the stated range: many long hashes (header beyond one 4 KiB buffer)
+				hs = hs[:0]
+				for j, n := 0, 40+r.IntN(25); j < n; j++ {
+					hs = append(hs, randBytes(r, 56+r.IntN(9)))
+				}
+				nh = len(hs)
+			}
 			cp := drawCP(r)
 			body := write(strconv.FormatUint(size, 10), hs, cp)
-			gs, gh, gc, err := bastion.VerifParseBody(bytes.NewReader(body))
+			// the body may reach the parser in any fragmentation
+			var rd io.Reader = bytes.NewReader(body)
+			delivery := "whole"
+			switch i % 5 {
+			case 1:
+				rd, delivery = iotest.OneByteReader(bytes.NewReader(body)), "byte_at_a_time"
+			case 2:
+				rd, delivery = iotest.HalfReader(bytes.NewReader(body)), "half_reads"
+			case 3:
+				rd, delivery = &chunkReader{b: body, r: r}, "random_chunks"
+			}
+			gs, gh, gc, err := bastion.VerifParseBody(rd)
 			run.Count("evaluations")
 			run.Count("roundtrip")
-			run.Distinct("nontrivial", fmt.Sprintf("rt/%d/%d/%v", nh, len(cp)%7, size > 1<<32))
+			run.Distinct("nontrivial", fmt.Sprintf("rt/%d/%d/%v/%s", nh, len(cp)%7, size > 1<<32, delivery))
+			if len(body)-len(cp) > 4096 {
+				run.Count("roundtrip_header_over_4KiB")
+			}
 			if err != nil || gs != size || !eqHashes(gh, hs) || !bytes.Equal(gc, cp) {
 				what := "differs"
 				switch {
@@ -135,7 +182,7 @@ func main() {
 				case !bytes.Equal(gc, cp):
 					what = "checkpoint"
 				}
-				run.Violate("roundtrip_"+what, fmt.Sprintf("well-formed body parsed to something else (%s): err=%v size %d vs %d, %d vs %d hashes", what, err, gs, size, len(gh), len(hs)), unit, map[string]any{"body_b64": base64.StdEncoding.EncodeToString(body)})
+				run.Violate("roundtrip_"+what+";delivery="+delivery+fmt.Sprintf(";header_over_4KiB=%v", len(body)-len(cp) > 4096), fmt.Sprintf("well-formed body parsed to something else (%s): err=%v size %d vs %d, %d vs %d hashes", what, err, gs, size, len(gh), len(hs)), unit, map[string]any{"body_b64": base64.StdEncoding.EncodeToString(body), "delivery": delivery})
 			}
 			if unit == 0 && i == 1 {
 				run.Sample(map[string]any{"part": "roundtrip", "body": string(body[:min(len(body), 200)])})
